@@ -375,7 +375,7 @@ def gen_typedef(item, stripped, relfile, log):
     return segs
 
 
-def generate(unit_name, repo=None):
+def generate(unit_name, repo=None, force_stub=()):
     repo = repo or REPO
     unit = load_unit(unit_name)
     log = []
@@ -414,6 +414,10 @@ def generate(unit_name, repo=None):
         if kind in ('struct', 'enum'):
             out += gen_typedef(item, stripped, item['file'], log)
         elif kind == 'fn':
+            if item.get('label', item['name']) in force_stub:
+                item = dict(item, stub=True)
+                item.pop('loops', None)
+                item.pop('hints', None)
             out += gen_fn(item, src, stripped, item['file'], log, dropped_hints, env)
             functions.append(item.get('label', item['name']))
         else:
